@@ -32,6 +32,7 @@ class Ctx:
         self.stats = stats if stats is not None else {}
         self.events = []
         self.inconclusive = None
+        self.model = None
 
     # ---- statistics
     def _stat(self, k, d=1):
@@ -71,6 +72,8 @@ class Ctx:
             raise Infeasible()
         self.solver.add(cond)
         self.pc.append(cond)
+        if self.model is not None and not z3.is_true(self.model.eval(cond, model_completion=True)):
+            self.model = None
 
     # ---- branching
     def branch(self, cond):
@@ -91,9 +94,25 @@ class Ctx:
             c = cond if d else z3.Not(cond)
             self.solver.add(c)
             self.pc.append(c)
+            self.model = None
             return d
-        can_t = self._check(cond) == z3.sat
-        can_f = self._check(z3.Not(cond)) == z3.sat
+        ncond = z3.Not(cond)
+        mt = mf = None
+        can_t = can_f = None
+        if self.model is not None:
+            mv = self.model.eval(cond, model_completion=True)
+            if z3.is_true(mv):
+                can_t, mt = True, self.model
+            elif z3.is_false(mv):
+                can_f, mf = True, self.model
+        if can_t is None:
+            can_t = self._check(cond) == z3.sat
+            if can_t:
+                mt = self.solver.model()
+        if can_f is None:
+            can_f = self._check(ncond) == z3.sat
+            if can_f:
+                mf = self.solver.model()
         if can_t and can_f:
             self.siblings.append(self.decisions + [False])
             d = True
@@ -105,7 +124,8 @@ class Ctx:
         else:
             raise Infeasible()
         self.decisions.append(d)
-        c = cond if d else z3.Not(cond)
+        self.model = mt if d else mf
+        c = cond if d else ncond
         if can_t and can_f:
             self.solver.add(c)
             self.pc.append(c)
